@@ -1,7 +1,8 @@
 """Core word-level units (add.rs kernels, primitives, math.rs scalars)."""
 VERUS = {
     'int_prim': {'file': 'int_prim.rs', 'w32': True},
-    'int_add': {'file': 'int_add.rs', 'w32': True},
+    'int_add': {'file': 'int_add.rs', 'w32': True, 'rlimit': 60},
+    'int_modadd': {'file': 'int_modadd.rs', 'w32': True},
 }
 
 KANI = {
@@ -18,5 +19,14 @@ KANI = {
 
 
 PROP_UNITS = {
-    'C01': {'verus': ['int_prim', 'int_add'], 'kani': ['int_math']},
+    'C01': {'verus': ['int_prim', 'int_add'], 'kani': ['int_math'],
+            'undecided': ['pow_large_base, mul_large/square_large glue, Memory scratch allocator',
+                          'Repr-level dispatch (add_ops/mul_ops::repr) until its unit lands']},
+    'C13': {'verus': ['int_modadd'],
+            'undecided': ['single/double-word residues (num_modular reducers, dependency)',
+                          'negate_in_place / dbl_in_place (Iterator::all, shift kernel)', 'mul, pow, inv, conversions',
+                          'cmp_same_len is an assumed contract (bounded-checked by Kani group int_cmp)']},
+    'C09': {'kani': ['int_math']},
+    'C16': {'verus': ['int_prim', 'int_add', 'int_modadd']},
+    'C19': {'verus': ['int_prim', 'int_add', 'int_modadd']},
 }
